@@ -157,6 +157,14 @@ def r3(run, ctx):
                 a = norm_text(c.args[0]) if c.args else ''
                 run.check('R3', a in ('self.loop.stop', 'cb', 'self.stop_controller_and_close_sockets'),
                           'what is scheduled is the loop stop or the socket close', f, n.ast)
+    si, ci = f.deco_index('synchronized'), f.deco_index('coroutine')
+    run.check('R3', si is None or ci is None or si < ci, 'the shutdown keeps the exclusive slot '
+              'until it is complete (synchronized wraps the coroutine)', f,
+              f.node.decorator_list[0] if f.node.decorator_list else f.node,
+              'gen.coroutine wraps synchronized on Arbiter.stop: the slot is released as soon as '
+              'the shutdown starts, a second termination signal re-enters the stop, reaches '
+              "reap_process's busy-wait on a worker still in its grace period and the daemon "
+              'never exits', construct='Arbiter.stop decorator order')
     # Arbiter.start: finally closes
     st = ctx.fn(A + 'start')
     cfg = ctx.cfg(st)
